@@ -1,5 +1,6 @@
 import Drv.Index
 import NpsVerif.Model.RunLength2d
+import NpsVerif.Model.RunLength2dArg
 import NpsVerif.Spec.Rows
 namespace Drv.RL2d
 open Lean Drv Model Model.RL2
@@ -54,6 +55,9 @@ def run (j : Json) : Json :=
   | "max" => obj [("L", toJson (r.rowReduce (fun l => l.foldl max (l.headD 0)))), ("S", toJson (dense.map (fun l => l.foldl max (l.headD 0))))]
   | "any" => obj [("L", toJson (r.rowReduce (fun l => l.any (· != 0)))), ("S", toJson (dense.map (fun l => l.any (· != 0))))]
   | "all" => obj [("L", toJson (r.rowReduce (fun l => l.all (· != 0)))), ("S", toJson (dense.map (fun l => l.all (· != 0))))]
+  | "argmax" =>
+    obj [("L", optJ r.argmax),
+         ("S", toJson (dense.map (fun row => (row.findIdx? (fun x => x == Model.maxOf row)).getD 0)))]
   | "col_sum" => obj [("L", rlaDec r.colSum), ("S", toJson (Spec.colSum dense))]
   | "col_counts" => obj [("L", rlaDec r.colCounts), ("S", toJson (Spec.colCounts dense))]
   | "ravel" => obj [("L", rlaDec r.ravel), ("S", toJson dense.flatten)]
